@@ -67,6 +67,19 @@ type P8 struct {
 	U float64 `json:"u"`
 }
 
+// P10 has only pointer fields, so every property can be absent (used for the exhaustive presence-rule space).
+type P10 struct {
+	A *int64 `json:"a"`
+	B *int64 `json:"b"`
+	C *int64 `json:"c"`
+}
+
+// P11 maps a property to a map[string]any field: the property's type is a map-based (possibly recursive) object.
+type P11 struct {
+	M map[string]any `json:"m"`
+	N *int64         `json:"n"`
+}
+
 type P9 struct {
 	FieldByName int64
 	Other       string `json:"other,omitempty"`
@@ -102,6 +115,12 @@ func buildStruct(name, id string, props map[string]*schema.PropertySchema) *sche
 		return schema.NewStructMappedObjectSchema[P8](id, props)
 	case "P9":
 		return schema.NewStructMappedObjectSchema[P9](id, props)
+	case "P11":
+		return schema.NewStructMappedObjectSchema[P11](id, props)
+	case "P10":
+		return schema.NewStructMappedObjectSchema[P10](id, props)
+	case "*P10":
+		return schema.NewStructMappedObjectSchema[*P10](id, props)
 	}
 	panic(fmt.Sprintf("gen: unknown pool struct %q", name))
 }
@@ -133,6 +152,12 @@ func ZeroStruct(name string) any {
 		return P8{}
 	case "P9":
 		return P9{}
+	case "P11":
+		return P11{}
+	case "P10":
+		return P10{}
+	case "*P10":
+		return &P10{}
 	}
 	return nil
 }
